@@ -146,6 +146,9 @@ class Queries(VC):
         pre = snapshot_storage(ctx.storage)
         outcome, r = run_entry(I, ctx, fn(I, "query", CRATE), [deps, env, qm], pre)
         ob.outcome = f"{qm.variant}:{outcome}"
+        ob.info["replay"] = dict(contract=CRATE, entry="query", crate=CRATE, env=env, info=None, msg=qm, msg_ty="msg::QueryMsg", pre_storage=pre, post_storage=pre,
+                                 outcome=outcome, result=r.value if outcome == "Ok" else None,
+                                 result_ty="cw20::BalanceResponse" if qm.variant == "Balance" else "TokenInfoResponse", querier=None)
         if outcome != "Ok": return      # only an invalid address string makes the balance query fail
         val = r.value
         if qm.variant == "Balance":
